@@ -243,8 +243,8 @@ def c14_attributable(docs):
 def alone(spec, prev_table):
     """the same document as a single-document buffer (an inherited table is made inline)"""
     doc_id, tokens, cdt = spec
-    if cdt == R.INHERIT:
-        cdt = prev_table
+    if cdt == R.INHERIT and prev_table is not None:
+        cdt = prev_table  # (nothing transmitted to inherit - the default table: the marker stays)
     return (doc_id, tokens, cdt)
 
 
@@ -822,7 +822,7 @@ def run(only=None):
         s = rep.sub("constant_tables",
                     "8 non-NCDT ids x inline tables of 0, 2, 5, 127, 128, 200 octets x bodies of 0, 1, 3 tokens (single document); "
                     "[A inline][B inherited] for all 8x8 id pairs x 4 tables x 2 bodies; [A inline][B inherited][C inherited] for all 8^3 id "
-                    "triples; [NCDT][A inline][B inherited] for all 8x8 pairs")
+                    "triples; [NCDT][A inline][B inherited] for all 8x8 pairs; the default table inherited: [NCDT][A inherited], [NCDT][A inherited][NCDT], [NCDT][A inherited][B inherited]")
         specs = []
         for a in NON_NCDT:
             for t in tables:
@@ -835,6 +835,11 @@ def run(only=None):
                     for n in (0, 3):
                         specs.append([(a, body_for(a, n), t), (b, body_for(b, n), R.INHERIT)])
                 specs.append([reps[2], (a, body_for(a, 1), BASE_CDT), (b, body_for(b, 3), R.INHERIT)])
+                # the table inherited is the DEFAULT one: the inheriting document follows an NCDT document (which has no table of its own on the wire)
+                specs.append([reps[2], (a, body_for(a, 2), R.INHERIT), (b, body_for(b, 1), R.INHERIT)])
+            for n in (0, 1, 3):
+                specs.append([reps[2], (a, body_for(a, n), R.INHERIT)])
+                specs.append([reps[2], (a, body_for(a, n), R.INHERIT), reps[2]])
                 for c in NON_NCDT:
                     specs.append([(a, body_for(a, 1), BASE_CDT), (b, body_for(b, 3), R.INHERIT), (c, body_for(c, 2), R.INHERIT)])
         s.declared = len(specs)
